@@ -12,12 +12,16 @@ import (
 	"strings"
 )
 
+// Conc chooses the concrete representatives of one case / scenario.
+//   - replay mode (r == nil): representative number `rep` of every table (deterministic)
+//   - random mode (r != nil): random representatives, random concrete numbers inside the class
 type Conc struct {
-	rep int
-	r   *rand.Rand // nil: deterministic representative `rep`
+	rep  int
+	r    *rand.Rand
+	nums map[string]int // random mode: concrete number chosen for (unit, value id)
 }
 
-func NewConc(rep int, r *rand.Rand) *Conc { return &Conc{rep: rep, r: r} }
+func NewConc(rep int, r *rand.Rand) *Conc { return &Conc{rep: rep, r: r, nums: map[string]int{}} }
 
 func (c *Conc) pick(list []string) string {
 	if c.r != nil {
@@ -26,63 +30,76 @@ func (c *Conc) pick(list []string) string {
 	return list[c.rep%len(list)]
 }
 
-func (c *Conc) pickInt(list []int) int { return list[c.rep%len(list)] }
+func (c *Conc) pickInt(list []int) int {
+	if c.r != nil {
+		return list[c.r.Intn(len(list))]
+	}
+	return list[c.rep%len(list)]
+}
 
 var (
-	repNonNum   = []string{"abc", "12abc", "0x10", "ten", "1,000", "5s"}
-	repNegCount = []string{"-1", "-5", "-2147483649"}
-	repNegMs    = []string{"-5000", "-1"}
-	repZero     = []string{"0", "00", "-0"}
-	repFloat    = []string{"1e3", "1500.5", "2.0"}
-	repOverflow = []string{"9999999999999999999", "18446744073709551616", "9223372036854775808"}
-	repPad      = []string{" %s ", "\t%s", "%s  "}
+	repNonNum   = []string{"abc", "12abc", "0x10", "ten", "1,000", "5s", "1_000", "--5", "NaN", "١٢", "1e", "5 000", "0b11", "∞"}
+	repNegCount = []string{"-1", "-5", "-2147483649", "-4096", "-9223372036854775808"}
+	repNegMs    = []string{"-5000", "-1", "-86400000"}
+	repZero     = []string{"0", "00", "-0", "+0"}
+	repFloat    = []string{"1e3", "1500.5", "2.0", ".5", "3."}
+	repOverflow = []string{"9999999999999999999", "18446744073709551616", "9223372036854775808", "100000000000000000000000000000000000000"}
+	repPad      = []string{" %s ", "\t%s", "%s  ", "%s\n"}
 )
 
 // kind of number a setting holds
 func unitOf(setting string) string {
 	switch {
-	case setting == "timeout" || strings.HasSuffix(setting, ".timeout"):
+	case setting == "timeout":
 		return "timeout"
+	case strings.HasSuffix(setting, ".timeout"):
+		return "sdktimeout"
 	case strings.HasSuffix(setting, ".delay"):
 		return "delay"
 	}
 	return "count"
 }
 
+// value ranges [lo, hi] per (unit, id); the classes are far enough apart (and from the
+// documented defaults) that the inverse abstraction below is unambiguous.
+var numRange = map[string][2]int{
+	"timeout/O":    {19000, 23000}, // default 10000
+	"timeout/S":    {38000, 44000},
+	"timeout/G":    {58000, 70000},
+	"sdktimeout/O": {9000, 12000}, // default 30000
+	"sdktimeout/S": {50000, 56000},
+	"delay/O":      {100, 100}, // defaults 5000 (BSP) / 1000 (BLRP)
+	"delay/S":      {600, 600},
+	"count/O":      {2, 4}, // defaults 128 / 512 / 2048, offered 140
+	"count/S":      {5, 9},
+	"count/G":      {10, 20},
+}
+
 // numVal: concrete value (count, or milliseconds) of value id for a setting.
 func (c *Conc) numVal(setting, id string) int {
-	switch unitOf(setting) {
-	case "timeout":
-		switch id {
-		case "O":
-			return c.pickInt([]int{20000, 24000})
-		case "S":
-			return c.pickInt([]int{40000, 45000})
-		case "G":
-			return c.pickInt([]int{60000, 75000})
-		}
-	case "delay":
-		switch id {
-		case "O":
-			return 100
-		case "S":
-			return 600
-		}
-	default:
-		switch id {
-		case "O":
-			return c.pickInt([]int{3, 2, 4})
-		case "S":
-			return c.pickInt([]int{5, 6, 9})
-		case "G":
-			return c.pickInt([]int{7, 8, 11})
-		}
+	key := unitOf(setting) + "/" + id
+	rg, ok := numRange[key]
+	if !ok {
+		panic("numVal: unknown id " + id + " for " + setting)
 	}
-	panic("numVal: unknown id " + id + " for " + setting)
+	if c.r == nil {
+		n := rg[1] - rg[0] + 1
+		if n > 3 {
+			// three representatives: low end, high end, middle
+			return []int{rg[0], rg[1], (rg[0] + rg[1]) / 2}[c.rep%3]
+		}
+		return rg[0] + c.rep%n
+	}
+	if v, ok := c.nums[key]; ok {
+		return v
+	}
+	v := rg[0] + c.r.Intn(rg[1]-rg[0]+1)
+	c.nums[key] = v
+	return v
 }
 
 // defaults documented by the OTel specification (and repeated by the Go docs)
-func defaultNum(comp, setting string) int {
+func defaultNum(setting string) int {
 	switch setting {
 	case "timeout":
 		return 10000
@@ -139,23 +156,23 @@ func (c *Conc) optNum(setting string, s Src) (int, bool) {
 		return 0, true
 	case "neg":
 		if unitOf(setting) == "count" {
-			return -1, true
+			return c.pickInt([]int{-1, -7, -1 << 31}), true
 		}
-		return -5000, true
+		return c.pickInt([]int{-5000, -1}), true
 	}
 	panic("optNum: kind " + s.K)
 }
 
 // absCount maps an observed count back to the value ids of the case.
 // offered = how many items were offered (== observed means "no limit hit").
-func (c *Conc) absCount(comp, setting string, n, offered int) []string {
+func (c *Conc) absCount(setting string, n, offered int) []string {
 	var out []string
 	for _, id := range []string{"O", "S", "G"} {
-		if unitOf(setting) == "count" && n == c.numVal(setting, id) {
+		if rg := numRange["count/"+id]; n >= rg[0] && n <= rg[1] && n == c.numVal(setting, id) {
 			out = append(out, id)
 		}
 	}
-	if d := defaultNum(comp, setting); d >= 0 && n == d {
+	if d := defaultNum(setting); d >= 0 && n == d {
 		out = append(out, "D")
 	}
 	if offered > 0 && n == offered {
@@ -170,20 +187,25 @@ func (c *Conc) absCount(comp, setting string, n, offered int) []string {
 	return out
 }
 
-// absDeadline maps the remaining time of an observed deadline to a timeout id.
-// remainingMs < 0: no deadline at all.
-func (c *Conc) absDeadline(comp, setting string, has bool, remainingMs int64) []string {
+// absDeadline maps the remaining time of an observed deadline to a timeout id.  The deadline
+// is observed a moment after it was created, so the remaining time is at most the configured
+// value and (generous allowance for a loaded machine) at least 8 s less.
+func (c *Conc) absDeadline(setting string, has bool, remainingMs int64) []string {
 	if !has {
 		return []string{"none"}
 	}
-	match := func(v int) bool { return remainingMs > int64(v)-3000 && remainingMs <= int64(v)+500 }
+	match := func(v int) bool { return remainingMs > int64(v)-8000 && remainingMs <= int64(v)+500 }
 	var out []string
-	for _, id := range []string{"O", "S", "G"} {
+	ids := []string{"O", "S", "G"}
+	if unitOf(setting) == "sdktimeout" {
+		ids = []string{"O", "S"}
+	}
+	for _, id := range ids {
 		if match(c.numVal(setting, id)) {
 			out = append(out, id)
 		}
 	}
-	if match(defaultNum(comp, setting)) {
+	if match(defaultNum(setting)) {
 		out = append(out, "D")
 	}
 	if len(out) == 0 {
@@ -207,9 +229,9 @@ var hdrEnvForms = map[string][]string{
 }
 
 var (
-	repHdrGarbage = []string{"novalue", "=", ",,,", "=v"}
-	repHdrBadKey  = []string{"bad key=1", "kéy=1", "(k)=1"}
-	repHdrPartial = []string{"%s,novalue", "novalue,%s", "%s,bad key=1", "%s,=v"}
+	repHdrGarbage = []string{"novalue", "=", ",,,", "=v", ";;", "%zz"}
+	repHdrBadKey  = []string{"bad key=1", "kéy=1", "(k)=1", "k\"=1"}
+	repHdrPartial = []string{"%s,novalue", "novalue,%s", "%s,bad key=1", "%s,=v", "%s,"}
 )
 
 func (c *Conc) envHeaders(s Src) (string, bool) {
@@ -229,7 +251,8 @@ func (c *Conc) envHeaders(s Src) (string, bool) {
 }
 
 func absHeaders(got map[string]string) []string {
-	for id, m := range hdrMaps {
+	for _, id := range []string{"mO", "mS", "mG", "none"} {
+		m := hdrMaps[id]
 		if len(m) != len(got) {
 			continue
 		}
@@ -253,8 +276,8 @@ func absHeaders(got map[string]string) []string {
 // ---------------------------------------------------------------- compression
 
 var (
-	repCmpUnknown = []string{"snappy", "zstd", "deflate", "1"}
-	repCmpCase    = []string{"GZIP", "Gzip"}
+	repCmpUnknown = []string{"snappy", "zstd", "deflate", "1", "gzip,none", "gz"}
+	repCmpCase    = []string{"GZIP", "Gzip", "gZip"}
 )
 
 func (c *Conc) envCompression(s Src) (string, bool) {
@@ -273,10 +296,7 @@ func (c *Conc) envCompression(s Src) (string, bool) {
 
 // ---------------------------------------------------------------- endpoint URLs
 
-var (
-	repURLUnparsable = []string{"://%s", "http://[::1", "http://%s/%%zz"}
-	repURLPathOnly   = []string{"/only/path", "only/path"}
-)
+var repURLUnparsable = []string{"://%s", "http://[::1", "http://%s/%%zz", "http://%s:port", "ht tp://%s"}
 
 func (c *Conc) envURL(s Src, hostport string) (string, bool) {
 	switch s.K {
@@ -293,7 +313,7 @@ func (c *Conc) envURL(s Src, hostport string) (string, bool) {
 	case "noscheme":
 		return hostport, true
 	case "pathonly":
-		return c.pick(repURLPathOnly), true
+		return s.V, true
 	}
 	panic("envURL: kind " + s.K)
 }
